@@ -215,4 +215,4 @@ CONTRACTS[M + "__eq__"] = dict(
     variants=[dict(name="none", params={"self": "NoteContainer", "other": "None"}, requires=None, split=None,
                    ensures=[("never-equal-to-None", "result == False")])],
     notes="domain: containers of 0..2 notes each, arbitrary names and octaves",
-    properties=["C12"], battery="nc_pairs")
+    properties=["C12", "C14"], battery="nc_pairs")
